@@ -42,9 +42,21 @@ def oracle12(case, lines):
 # ------------------------------------------------------------------------------------------ lib14
 def gen14(rng, n=40):
     ops = []
+    nostamps = [0]
     for _ in range(n):
         r = rng.random()
         K = rng.choice("AB"); key = rng.randint(0, 3)
+        if rng.random() < 0.22:
+            # object flavour (MapKeyObjToObj): key types 0,1 with a number, 2,3 zero-sized; value types 0 (i64), 1 (String), 2,3 zero-sized
+            kt = rng.randint(0, 3); kn = 0 if kt >= 2 else rng.randint(0, 2)
+            q = rng.random()
+            if q < 0.35:
+                vt = rng.randint(0, 3); ops.append(f"oins {kt} {kn} {vt} {0 if vt >= 2 else rng.randint(0, 3)}")
+            elif q < 0.45: ops.append(f"orem {kt} {kn}")
+            elif q < 0.65: ops.append(f"oread {kt} {kn}")
+            elif q < 0.8: ops.append(f"ostamp {kt} {kn}"); nostamps[0] += 1
+            elif nostamps[0]: ops.append(f"ocheck {kt} {kn} {rng.randrange(nostamps[0])}")
+            continue
         if r < 0.18: ops.append(f"ins {K} {key} {rng.randint(0, 9)}")
         elif r < 0.30: ops.append(f"wins {K} {key} {rng.randint(0, 9)}")
         elif r < 0.36: ops.append(f"rem {K} {key}")
@@ -74,6 +86,7 @@ def gen14(rng, n=40):
 def oracle14(case, lines):
     """independent reference: one slot per resource type holding (state type, value)"""
     fails, slot = [], {}
+    omap, ostamps = {}, []
     mt = {"A": "mapA", "B": "mapB"}
 
     def gmap(K):
@@ -92,6 +105,20 @@ def oracle14(case, lines):
         t = op.split(" ")
         o = lambda v: "none" if v is None else f"some:{v}"
         exp = None
+        if t[0].startswith("o"):
+            # object flavour: its own slot; keys and values are (type, value) pairs, zero-sized types carry value 0
+            kk = (int(t[1]), 0 if int(t[1]) >= 2 else int(t[2]))
+            ov = lambda v: "none" if v is None else f"some:{v[0]}:{v[1]}"
+            if t[0] == "oins":
+                vv = (int(t[3]), 0 if int(t[3]) >= 2 else int(t[4])); exp = ov(omap.get(kk)); omap[kk] = vv
+            elif t[0] == "orem": exp = ov(omap.pop(kk, None))
+            elif t[0] == "oread": exp = ov(omap.get(kk))
+            elif t[0] == "ostamp": exp = f"s{len(ostamps)} {ov(omap.get(kk))}"; ostamps.append(omap.get(kk))
+            elif t[0] == "ocheck":
+                if int(t[3]) < len(ostamps): exp = "consistent" if omap.get(kk) == ostamps[int(t[3])] else "inconsistent"
+            if exp is not None and exp != res:
+                fails.append(f"'{op}' returned {res}, a map keyed by (concrete key type, value) with read-your-writes says {exp}")
+            continue
         if t[0] in ("ins", "wins"): m = gmap(t[1]); exp = o(m.get(int(t[2]))); m[int(t[2])] = int(t[3])
         elif t[0] in ("rem", "wrem"): m = gmap(t[1]); exp = o(m.pop(int(t[2]), None))
         elif t[0] in ("read", "wget", "stamp"): exp = o(gmap(t[1]).get(int(t[2])))
